@@ -38,7 +38,7 @@ K_CMSG = KaniUnit(
 K_FFI = KaniUnit(
     name="k_ffi", harness_file="kani/harness_unix.rs", append_to="src/platform/unix/mod.rs",
     harnesses=["ffi_cmsg_arithmetic", "ffi_unix_cmsg_new", "ffi_is_socket", "ffi_new_sockaddr_un",
-               "ffi_send_first_fragment", "ffi_send_followup_fragment", "ffi_map_file", "ffi_create_shmem", "ffi_make_socket_lingering"],
+               "ffi_send_first_fragment", "ffi_send_followup_fragment", "ffi_map_file", "ffi_map_file_mmap_fails", "ffi_create_shmem", "ffi_make_socket_lingering"],
     props=["C18", "C04", "C08", "C01", "C13", "C05", "C11"],
     id_props=[("kani.ffi.is_socket", ["C04", "C18"]), ("kani.ffi.map", ["C05", "C18"]), ("kani.ffi.create_shmem_name", ["C11", "C05"]), ("kani.ffi.create_shmem_returns", ["C11"]), ("kani.ffi.create_shmem", ["C05", "C11"]), ("kani.ffi.mmap", ["C05", "C18"]), ("kani.ffi.empty_region", ["C05", "C18"]),
               ("kani.ffi.one_mapping", ["C05", "C18"]), ("kani.ffi.first_fragment", ["C01", "C13", "C18"]), ("kani.ffi.followup", ["C01", "C13", "C10", "C18"]),
